@@ -46,6 +46,12 @@ func (c *CircuitFixed) Define(api frontend.API) error {
 	if len(publicInputs) != 16 {
 		return fmt.Errorf("expected 16 public inputs, got %d", len(publicInputs))
 	}
+	// The public inputs are 32-bit limbs. The inner verifier only sees them reduced modulo the Goldilocks prime,
+	// so without a width check limb + k*p would be accepted with a different packed public value.
+	glApi := gl.New(api)
+	for _, publicInput := range publicInputs {
+		glApi.RangeCheckWithMaxBits(publicInput, 32)
+	}
 	for j := 0; j < 4; j++ {
 		publicInputLimb := frontend.Variable(0)
 		slicePub := publicInputs[j*4 : (j+1)*4]
